@@ -41,7 +41,7 @@ func NewRelay(network, upstream, unixName string) (*Relay, error) {
 		r.ln, err = net.Listen("unix", unixName)
 		r.Addr = unixName
 	} else {
-		r.ln, err = net.Listen("tcp", "127.0.0.1:0")
+		r.ln, err = ListenTCP0()
 		if err == nil {
 			r.Addr = r.ln.Addr().String()
 		}
